@@ -312,3 +312,21 @@ def _replace_everywhere(fn, name, repl, skip):
                 return tr.visit_Name(node)
             return self.generic_visit(node)
     T().visit(fn)
+
+
+def guard_atoms(guards) -> List[Tuple[ast.AST, bool]]:
+    """the atomic facts a guard list establishes: a passed `a and b` gives (a, True), (b, True); a failed `a or b` gives (a, False), (b, False);
+    `not x` flips the sense.  (A failed `and` / passed `or` stays one compound fact.)"""
+    out = []
+
+    def add(t, s):
+        while isinstance(t, ast.UnaryOp) and isinstance(t.op, ast.Not):
+            t, s = t.operand, not s
+        if isinstance(t, ast.BoolOp) and ((isinstance(t.op, ast.And) and s) or (isinstance(t.op, ast.Or) and not s)):
+            for v in t.values:
+                add(v, s)
+        else:
+            out.append((t, s))
+    for t, s in guards:
+        add(t, s)
+    return out
